@@ -14,7 +14,7 @@ LEVEL = "exploration"
 RULE = ("Cases: 'tmp': TmpPool(fresh scratch dir, multi_proc) with a body of create / remove(j-th live path) / external os.remove then "
         "pool.remove / flush / len / index operations; for every generated body the with-block is executed once without fault and once "
         "for EVERY position p at which the body raises (all fault positions enumerated); multi-process pools additionally fork 1..3 "
-        "children (multiprocessing fork context) that each create 1..3 files inside the context. 'files': FilePool over 0..5 distinct "
+        "children (multiprocessing fork context) that each create 1..3 files inside the context; 'conc': the parent and 1..2 forked children remove (disjoint shares of) and create files of one multi_proc pool at the same time, with single os.remove/create turns granted by a generated schedule. 'files': FilePool over 0..5 distinct "
         "paths in mode r/rb/r+/w/wb/a/w+ with reads/writes through the handles and the same fault enumeration. Oracle: returned paths "
         "distinct and existing; after every step list(pool) == created-and-not-removed == files present in the scratch directory; after "
         "flush and after leaving the context (normally or by the exception, which must propagate unchanged) the directory is empty, "
@@ -268,8 +268,127 @@ def run_files(case, ctx):
         ctx.label("multi-file")
 
 
+class _OsProxy:
+    """stands in for the `os` name inside windpyutils.files: remove() is a turn point of the cross-process schedule"""
+
+    def __init__(self, real):
+        self._real = real
+
+    def remove(self, p):
+        from .. import xproc
+        xproc.hook(b"X")
+        return self._real.remove(p)
+
+    def __getattr__(self, n):
+        return getattr(self._real, n)
+
+
+def _conc_participant(gate, pool, prog, paths, as_child):
+    from .. import xproc
+    import json as _json
+    if as_child:
+        xproc.ME = gate
+    else:
+        xproc._local.gate = gate
+    created = []
+    err = None
+    try:
+        for o in prog:
+            if o[0] == "remove":
+                pool.remove(paths[o[1]])
+            else:
+                xproc.hook(b"C")
+                created.append(pool.create())
+    except Exception as e:  # noqa
+        err = repr(e)
+    os.write(gate.w_res, _json.dumps({"created": created, "err": err}).encode() + b"\n")
+    os.write(gate.w_evt, b"D")
+
+
+def run_conc(case, ctx):
+    """several processes remove (their own share of) and create files of ONE multi_proc pool at the same time; turns are
+    granted at every os.remove / create according to a generated schedule"""
+    import threading
+    from .. import xproc
+    ctx.label("tmp-concurrent")
+    ctx.label("multi-proc")
+    with FG.Scratch() as sc:
+        d = sc.path("pool")
+        os.mkdir(d)
+        pool = F.TmpPool(d, multi_proc=True)
+        first_manager = getattr(pool, "_manager", None)
+        saved_os = F.os
+        procs = []
+        gates = []
+        th = None
+        try:
+            F.os = _OsProxy(saved_os)
+            with pool:
+                paths = [pool.create() for _ in range(case["initial"])]
+                progs = case["progs"]           # progs[0] = parent, others = children; remove operands are indices into paths
+                removed = set()
+                norm = []
+                for pr in progs:
+                    mine = []
+                    for o in pr:
+                        if o[0] == "remove":
+                            cand = [i for i in range(len(paths)) if i not in removed]
+                            if not cand:
+                                continue
+                            i = cand[o[1] % len(cand)]
+                            removed.add(i)
+                            mine.append(["remove", i])
+                        else:
+                            mine.append(["create"])
+                    norm.append(mine)
+                gates = [xproc.Gate() for _ in norm]
+                mp = multiprocessing.get_context("fork")
+                for g, pr in zip(gates[1:], norm[1:]):
+                    p = mp.Process(target=_conc_participant, args=(g, pool, pr, paths, True))
+                    p.start()
+                    procs.append(p)
+                th = threading.Thread(target=_conc_participant, args=(gates[0], pool, norm[0], paths, False), daemon=True)
+                th.start()
+                trace = xproc.drive(gates, case["schedule"])
+                results = [xproc.read_result(g) for g in gates]
+                th.join(30)
+                for p in procs:
+                    p.join(30)
+                for r_ in results:
+                    if r_["err"]:
+                        ctx.fail("TmpPool/concurrent/exception", "a participant raised %s" % r_["err"])
+                live = sorted([paths[i] for i in range(len(paths)) if i not in removed] + [q for r_ in results for q in r_["created"]])
+                listed = sorted(list(pool))
+                if listed != live:
+                    ctx.fail("TmpPool/concurrent/listing-differs", "after concurrent create/remove the pool lists %d paths, %d were created and not removed "
+                             "(listed but removed: %d, live but not listed: %d)" % (len(listed), len(live), len(set(listed) - set(live)), len(set(live) - set(listed))))
+                on_disk = listdir(d)
+                if on_disk != live:
+                    ctx.fail("TmpPool/concurrent/disk-differs", "on disk %d files, expected the %d live paths" % (len(on_disk), len(live)))
+                if len({i for i, _ in trace}) >= 2:
+                    alternations = sum(1 for a, b in zip(trace, trace[1:]) if a[0] != b[0])
+                    if alternations >= 2:
+                        ctx.label("interleaved-removes")
+                        ctx.nontrivial = True
+            left = os.listdir(d)
+            if left:
+                ctx.fail("TmpPool/concurrent/files-left-after-exit", "%d files left after leaving the context" % len(left))
+        finally:
+            F.os = saved_os
+            for p in procs:
+                if p.is_alive():
+                    p.kill()
+            for g in gates:
+                g.close()
+            if first_manager is not None:
+                try:
+                    first_manager.shutdown()
+                except Exception:  # noqa
+                    pass
+
+
 def run_case(case, ctx):
-    (run_tmp if case["kind"] == "tmp" else run_files)(case, ctx)
+    {"tmp": run_tmp, "files": run_files, "conc": run_conc}[case["kind"]](case, ctx)
     if ctx.extra.get("fault_runs"):
         ctx.label("fault-runs")
 
@@ -285,7 +404,12 @@ def strategies(tier):
     files = st.fixed_dictionaries({"kind": st.just("files"), "mode": st.sampled_from(MODES), "n": st.integers(0, 5),
                                    "as_generator": st.booleans(),
                                    "body": codes(0, 6).map(lambda cs: [[["read", "write"][c % 2], (c // 2) % 5] for c in cs])})
+    cop = st.one_of(st.tuples(st.just("remove"), st.integers(0, 9)).map(list), st.tuples(st.just("remove"), st.integers(0, 9)).map(list), st.just(["create"]))
+    conc = st.fixed_dictionaries({"kind": st.just("conc"), "initial": st.integers(2, 6),
+                                  "progs": st.lists(st.lists(cop, min_size=1, max_size=4), min_size=2, max_size=3),
+                                  "schedule": st.lists(st.integers(0, 3), max_size=20)})
     return [("tmp-single", single, 200000 if big else 2500), ("tmp-multi-proc", multi, 8000 if big else 240),
+            ("tmp-concurrent-removers", conc, 8000 if big else 240),
             ("filepool", files, 200000 if big else 2500)]
 
 
